@@ -425,6 +425,11 @@ class XMLReader(object):
             self.error("Attribute not supported, ignoring '%s=%s' " % (k, val), root)
 
         for node in root:
+            # Processing instructions, comments and entity references are no
+            # odML content; their 'tag' is not a string.
+            if not isinstance(node.tag, str):
+                continue
+
             node.tag = node.tag.lower()
             self.is_valid_argument(node.tag, fmt, root, node)
             if node.tag in fmt.arguments_keys:
